@@ -397,6 +397,9 @@ func main() {
 		pprof.StartCPUProfile(f)
 		stopProf = pprof.StopCPUProfile
 	}
+	if err := polworld.CalibrateAgainstSDK(); err != nil {
+		r.Fatal("%v", err)
+	}
 	pool := sync.Pool{New: func() any { return polworld.New() }}
 	if r.Replay != "" {
 		var c tcase
